@@ -1,5 +1,34 @@
-/- Model for C10 (core Lean only, no Mathlib). -/
+/-
+Model for C10 — the paste shortcut.  The planning code (`_can_paste`, `snap_affine`,
+`snap_scale`, `is_almost_int`, `maybe_int`, `_pick_read_scale`, the paste branch of
+`compute_reproject_roi`, `compute_axis_overlap`) is modelled in `OdcGeo.Model.C03`; this file adds
+the paste operation itself: what a consumer of `ReprojectInfo` does when `paste_ok` holds
+(`dst[roi_dst] = src[roi_src]`, flipped along mirrored axes, rest nodata).
+-/
 import OdcGeo.Model.IO
+import OdcGeo.Model.Affine
+import OdcGeo.Model.C03
+import OdcGeo.Spec.Warp
 namespace OdcGeo.C10
+open OdcGeo.C17 OdcGeo.C03
+
+/-- source index on one axis for destination index `d` inside the destination slice: the block is
+copied in order, or reversed when the axis is mirrored -/
+def pasteIndex (flip : Bool) (srcS dstS : NSlice) (d : Int) : Int :=
+  if flip then srcS.stop - 1 - (d - dstS.start) else srcS.start + (d - dstS.start)
+
+/-- the pasted image: `roi_src` of the source copied (mirrored per axis) into `roi_dst` of an image
+filled with `nodata` -/
+def pasted {α : Type} (src : Int → Int → α) (flipY flipX : Bool) (roiSrc roiDst : ROI) (nodata : α)
+    (dy dx : Int) : α :=
+  if roiDst.1.start ≤ dy ∧ dy < roiDst.1.stop ∧ roiDst.2.start ≤ dx ∧ dx < roiDst.2.stop then
+    src (pasteIndex flipY roiSrc.1 roiDst.1 dy) (pasteIndex flipX roiSrc.2 roiDst.2 dx)
+  else nodata
+
+def pastedList (img : List (List Int)) (dshape : Int × Int) (flipY flipX : Bool) (roiSrc roiDst : ROI)
+    (nodata : Int) : List (List Int) :=
+  (List.range dshape.1.toNat).map fun (dy : Nat) =>
+    (List.range dshape.2.toNat).map fun (dx : Nat) =>
+      pasted (Warp.getPx img nodata) flipY flipX roiSrc roiDst nodata dy dx
 
 end OdcGeo.C10
